@@ -294,7 +294,7 @@ func ruleCL3(c *Ctx) *rule {
 		if found == "" && list != nil {
 			for _, g := range fi.necessaryGuards(s.site.Block()) {
 				coll, pred, hit, isSearch := searchTest(g.cond, g.pol)
-				if !isSearch || hit || !sameOrigins(coll, list) || len(pred.Params) != 1 {
+				if !isSearch || hit || !(sameOrigins(coll, list) || sameStableCell(coll, list)) || predElem(pred) == nil {
 					continue
 				}
 				sets := c.resultGuardSets(pred, false)
@@ -302,7 +302,7 @@ func ruleCL3(c *Ctx) *rule {
 				for _, set := range sets {
 					one := false
 					for _, pg := range set {
-						if c.relatesToRoot(pg.cond, []ssa.Value{pred.Params[0]}) {
+						if c.relatesToRoot(pg.cond, []ssa.Value{predElem(pred)}) {
 							one = true
 						}
 					}
@@ -322,6 +322,40 @@ func ruleCL3(c *Ctx) *rule {
 		}
 	}
 	return r
+}
+
+// sameStableCell: a and b are loads of the same local cell (variable or field of a local struct) and every store into that
+// cell comes before the first of the two loads, so both see the same value.
+func sameStableCell(a, b ssa.Value) bool {
+	la, ok1 := a.(*ssa.UnOp)
+	lb, ok2 := b.(*ssa.UnOp)
+	if !ok1 || !ok2 || la.Op != token.MUL || lb.Op != token.MUL || !sameCell(la.X, lb.X) {
+		return false
+	}
+	base := baseAlloc(la.X)
+	if base == nil {
+		return false
+	}
+	first := ssa.Instruction(la)
+	if before(lb, la) {
+		first = lb
+	}
+	after := reachFromInstr(first)
+	for _, addr := range derivedAddrs(base) {
+		if !sameCell(addr, la.X) && addr != ssa.Value(base) {
+			continue
+		}
+		for _, ref := range valueReferrers(addr) {
+			st, ok := ref.(*ssa.Store)
+			if !ok || st.Addr != addr {
+				continue
+			}
+			if after[st.Block()] || (st.Block() == first.Block() && before(first, st)) {
+				return false // the cell can be written after the first of the two reads
+			}
+		}
+	}
+	return true
 }
 
 func ruleCL4(c *Ctx) *rule {
